@@ -414,6 +414,21 @@ class Intervals:
         if k == 'ref':
             dk = e.get('dk')
             if dk == 'parm':
+                # a by-value parameter that is re-defined in straight-line code before the use (`value &= mask;`)
+                if func is not None and depth < 40 and e.get('name'):
+                    rd = self.reaching_def(func, e)
+                    if rd is not None:
+                        kind, node = rd
+                        x = None
+                        if kind == 'init':
+                            x = self.iv(node, func, env, penv, depth + 1)
+                            if x is not None and trange(t):
+                                x = clamp(x, t)
+                        elif kind == 'and':
+                            a = self.iv(node[1], func, env, penv, depth + 1)
+                            x = (0, a[1]) if a is not None and a[0] >= 0 else None
+                        if x is not None:
+                            return x
                 if e['name'] in penv and penv[e['name']] is not None:
                     return penv[e['name']]
                 return tr
